@@ -17,6 +17,11 @@ inductive Outcome where
 def block (w : World) (p : Pid) (f : Frame) : World × Outcome :=
   (w.modProc p fun x => { x with blocked := some f }, .blocked)
 
+/-- handle variables 8..15 are shared between the processes, 0..7 are private -/
+def getVar (w : World) (p : Pid) (v : Nat) : Nat := if v ≥ 8 then w.gvars.getD v 0 else (w.proc p).vars.getD v 0
+def setVar (w : World) (p : Pid) (v h : Nat) : World :=
+  if v ≥ 8 then { w with gvars := w.gvars.set! v h } else w.modProc p fun y => { y with vars := y.vars.set! v h }
+
 def pendingCountFor (w : World) (p : Pid) : Nat := (pendingOf w p).length
 
 /-! ### pools -/
@@ -207,7 +212,7 @@ def pqPutLoop (w : World) (p : Pid) (k obj : Nat) (pri : Int) (v : Nat) : World 
       match HashHeap.enqueue compare_func x.queue ⟨obj, 0, 0, 0⟩ 0 0 pri with
       | .ok (q', h) =>
         let w := { w with pqs := w.pqs.set! k { x with queue := q' } }
-        let w := w.modProc p fun y => { y with vars := y.vars.set! v h }
+        let w := setVar w p v h
         let w := recordPQ w k
         let w := signal w x.front
         (w, .ret sigSuccess s!"h={h}")
@@ -245,8 +250,6 @@ def condSignal (w : World) (g : Nat) : World × Bool :=
 
 /-! ### commands -/
 
-def getVar (w : World) (p : Pid) (v : Nat) : Nat := (w.proc p).vars.getD v 0
-def setVar (w : World) (p : Pid) (v h : Nat) : World := w.modProc p fun y => { y with vars := y.vars.set! v h }
 
 def isRunning (w : World) (p : Pid) : Bool := (w.proc p).status = .running
 
@@ -553,7 +556,11 @@ def resumeFrame (w : World) (p : Pid) (f : Frame) (sig : Int) : World × Outcome
   | .condWait c =>
     match w.conds[c]? with
     | none => (w, .ret sig "")
-    | some g => (guardWaitLeave w g p sig, .ret sig "")
+    | some g =>
+      let w := guardWaitLeave w g p sig
+      -- left for another reason: a wake-up from a signal in this same instant may be pending; withdraw it
+      let w := if sig ≠ sigSuccess then (cancelKindFor w p aCond none).1 else w
+      (w, .ret sig "")
 
 /-! ### running a process until it blocks or ends -/
 
